@@ -123,6 +123,10 @@ def oracle_multi(svc, script, out):
         # must already be running again when the final response is handed over
         fails.append((f"{fam}:reactor-paused-at-final-yield",
                       f"the reactor checkpoint is still cleared while the generator is suspended on its last (final) response {out['yields'][-1][:2]}"))
+    if out.get("kept_changed") or out.get("kept_aliased"):
+        fails.append((f"{fam}:response-overwritten-after-it-was-handed-out",
+                      f"responses kept by the caller changed afterwards (indices {out.get('kept_changed')}) or are one and the same object "
+                      f"(aliased={out.get('kept_aliased')}): {got[:4]}"))
     if not out["cancels_ok"]:
         fails.append((f"{fam}:cancel-while-suspended", "send_c_cancel between two next() calls did not send exactly one C-CANCEL"))
     if out["raised"] is None and not out["overrun"]:
